@@ -115,12 +115,52 @@ def run(tier):
             C.violation(dict(key, kind="binding"), "call %s of %s (%s): engine %s, statement %r" % (
                 key["call"], key["sig"], form, repr(x.get("out")) if x.get("ok") else "error: " + (x.get("msg") or x.get("disp", ""))[:120], exp), {"job": job, "expected": exp, "got": x})
     # ---- prefix priority (vectors from Components!PrioVectors) and recursion families
+    types(C, r.tags["TYPES"][0])
     extra(C, r.tags.get("PRIO", []))
     k = len(meta) // 2
     C.sample({"definition": definition(vecs[meta[k][0]]["sig"])[:120], "call": vecs[meta[k][0]]["call"], "form": meta[k][1], "expected": meta[k][2]})
     C.assumptions += ["type-checking of a declared default against its declared type is not demanded", "which refusal is reported when several apply is not demanded",
                       "the value of the nesting limit is measured, only its existence, monotonicity and path independence are required"]
     return C.finish()
+
+
+KINDVAL = {"str": "s", "safe-str": {"$safe": "s"}, "i64": {"$i64": "3"}, "u64": {"$u64": "3"}, "i128": {"$i128": "3"}, "u128": {"$u128": "3"}, "float": {"$f64": "2.5"},
+           "bool": True, "arr": [1], "map": {"a": 1}, "bytes": {"$bytes": [65]}}
+DEFLIT = {"str": '"d"', "int": "1", "float": "1.5", "bool": "true", "arr": "[1]", "map": "{'a': 1}"}
+
+
+def types(C, tab):
+    """The type table of Components.tla: declared type (or the type a default implies, or a declared type next to a default of
+    another numeric kind) x value kind, through an inline call, a call with the value in a spread, and the API."""
+    jobs, meta = [], []
+    def case(sigtxt, kind, want, what):
+        comp = "{% component c(" + sigtxt + ") %}ok{% endcomponent c %}"
+        v = KINDVAL[kind]
+        jobs.append({"cfg": {}, "ctx": {"v": v, "o": {"p": v}}, "steps": [{"op": "add", "tpls": [["c.html", comp], ["t.html", "{{<c p={v} />}}"], ["s.html", "{{<c {...o} />}}"]]},
+                                                                            {"op": "render", "name": "t.html"}, {"op": "render", "name": "s.html"},
+                                                                            {"op": "render_component", "name": "c", "auto": True, "ctx": {"p": v}}, {"op": "compdef", "name": "c"}]})
+        meta.append((sigtxt, kind, want, what))
+    for ty, row in tab["declared"].items():
+        for kind, want in row.items():
+            case("p: " + ty, kind, want, "declared")
+    for dk, row in tab["inferred"].items():
+        for kind, want in row.items():
+            case("p=" + DEFLIT[dk], kind, want, "inferred")
+    for ty, rows in tab["both"].items():
+        for dk, row in rows.items():
+            for kind, want in row.items():
+                case("p: %s = %s" % (ty, DEFLIT[dk]), kind, want, "declared-next-to-default")
+    for (sigtxt, kind, want, what), rr, job in zip(meta, vp.run_jobs(jobs, tag="c05-types"), jobs):
+        C.count(3)
+        C.nontrivial(["types", sigtxt, kind])
+        key = {"kind": "type-table", "sig": sigtxt, "value": kind}
+        if any(x.get("panic") or x.get("abort") for x in rr) or not rr[0].get("ok"):
+            C.violation(dict(key, kind="type-setup"), "component c(%s): %s" % (sigtxt, [x for x in rr if not x.get("ok")][:1]), {"job": job})
+            continue
+        for x, form in zip(rr[1:4], ("inline call", "spread", "render_component")):
+            if bool(x.get("ok")) != want:
+                C.violation(dict(key, form=form), "component c(%s) called (%s) with a %s value: engine %s, the type %s it" % (
+                    sigtxt, form, kind, "accepts" if x.get("ok") else "refuses (%s)" % (x.get("msg") or x.get("disp", ""))[:90], "accepts" if want else "refuses"), {"job": job})
 
 
 def extra(C, prio):
